@@ -50,7 +50,11 @@ def run_op(tbl, op, arg, variant):
     import dataflows as DF
     from dataflows import Flow
     from ..common import tuple_source
-    src = tuple_source([('t', [(f, 'integer') for f in FIELDS], real_rows(tbl))])
+    # variant twin: the same table twice, as two resources - each resource is processed on its own (nothing a step has
+    # seen in one resource may influence what it does to the next one)
+    twin = bool(variant.get('twin'))
+    src = tuple_source(([('t0', [(f, 'integer') for f in FIELDS], real_rows(tbl))] if twin else []) +
+                       [('t', [(f, 'integer') for f in FIELDS], real_rows(tbl))])
     if op == 'filter':
         if arg['kind'] == 'callable':
             step = DF.filter_rows(condition=lambda r: r['a'] != -1)
@@ -73,8 +77,12 @@ def run_op(tbl, op, arg, variant):
         links = [src, DF.unpivot(uf, [dict(name='k', type='string')], dict(name='v', type='integer'), regex=regex)]
     with contextlib.redirect_stdout(io.StringIO()):
         ds = Flow(*links).datastream()
-        rows = [[dict(r) for r in res] for res in ds.res_iter][0]
-        fields = [f['name'] for f in ds.dp.descriptor['resources'][0]['schema']['fields']]
+        streams = [[dict(r) for r in res] for res in ds.res_iter]
+        rows = streams[-1]
+        fields = [f['name'] for f in ds.dp.descriptor['resources'][-1]['schema']['fields']]
+        if twin and (len(streams) != 2 or streams[0] != rows or
+                     [f['name'] for f in ds.dp.descriptor['resources'][0]['schema']['fields']] != fields):
+            raise AssertionError('the two resources holding the same table come out differently: %r / %r' % (streams[0][:3], rows[:3]))
     return rows, fields
 
 
@@ -118,9 +126,10 @@ def random_case(item):
         rex = dict(t='re', name='', prefix='x')
         arg = r.choice([[dict(pat=lit('xa'), key='const')], [dict(pat=rex, key='group')], [dict(pat=rex, key='name')],
                         [dict(pat=lit('xb'), key='name'), dict(pat=lit('xa'), key='const')], [dict(pat=lit('b'), key='const'), dict(pat=rex, key='group')],
-                        [dict(pat=lit('a'), key='name'), dict(pat=lit('b'), key='name')]])
+                        [dict(pat=lit('a'), key='name'), dict(pat=lit('b'), key='name')],
+                        [dict(pat=lit('xa'), key='const'), dict(pat=rex, key='group')], [dict(pat=rex, key='name'), dict(pat=lit('xb'), key='const')]])
     try:
-        rows, fields = run_op(tbl, op, arg, dict(twice=False))
+        rows, fields = run_op(tbl, op, arg, dict(twice=False, twin=r.random() < 0.4))
     except Exception as e:
         return dict(raised='%s: %s' % (type(e).__name__, str(e)[:200]), op=op, arg=arg)
     return dict(tbl=tbl, op=op, arg=arg, out=project(op, rows, fields))
@@ -144,7 +153,7 @@ def run():
     setup_repo()
     r = rng(PROP)
     cases = model(rep, t)
-    items = [dict(case=c, variant=dict(merged=r.random() < 0.5, twice=r.random() < 0.5, noregex=r.random() < 0.5)) for c in cases]
+    items = [dict(case=c, variant=dict(merged=r.random() < 0.5, twice=r.random() < 0.5, noregex=r.random() < 0.5, twin=r.random() < 0.35)) for c in cases]
     res = pmap(replay_case, items, chunksize=32)
     errs = harness_errors(res)
     if errs:
